@@ -65,6 +65,8 @@ Definition req_buffer (c : connp) : st * connp :=
   | None => (ST_OK, c)
   | Some _ =>
     let len := (k_read (c_in c) - k_consume (c_in c))%nat in
+    (* size_t subtraction: consume > read would wrap; never the case on this side, kept as a checked condition *)
+    let c := if (k_read (c_in c) <? k_consume (c_in c))%nat then rq_fault c else c in
     if (len =? 0)%nat then (ST_OK, c)
     else
       let newlen := (rq_buf_size c + len + rq_header_len c)%nat in
